@@ -138,6 +138,113 @@ def collect(facts, crates, kinds):
     return out, nfn
 
 
+WITNESSES = os.path.join(VERIF, "rules", "site_witnesses.json")
+
+
+def load_witnesses():
+    return json.load(open(WITNESSES)) if os.path.exists(WITNESSES) else {}
+
+
+def _fn_bodies(facts, rx):
+    cache = facts.__dict__.setdefault("_wit_fn_cache", {})
+    if rx not in cache:
+        r = re.compile(rx)
+        cache[rx] = [b for c in facts.crates for b in facts.all_bodies(c) if r.search(norm_fn(b.path))]
+    return cache[rx]
+
+
+def eval_witness(facts, w, ss):
+    """One structural witness of a `confirmed` reason -> (ok, text).  Forms:
+       ["dom_call", callee_rx]            every site is dominated by a block that calls a matching callee
+       ["dom_calls", callee_rx, n]        ... by at least n such blocks
+       ["dom_call_same_loop", callee_rx]  ... by such a block that lies inside every natural loop containing the site
+       ["dom_call_after", callee_rx, after_rx]  ... by such a call that is itself dominated by a call matching after_rx
+                                          (a guard evaluated per element: after the loop's `next`)
+       ["fn_call", fn_rx, callee_rx]      some function whose path matches fn_rx calls a matching callee
+       ["entry_range", fn_rx, local, lo, hi]    the entry facts of the closed function bound parameter _local within [lo, hi]
+       ["operand_within", i, lo, hi, n]   the interval analysis bounds operand i of at least n sites of the group in [lo, hi]
+       ["fn_ret_const", fn_rx, value]     some function matching fn_rx assigns the constant to its return place
+       ["any", w1, w2, ...]               one of the alternatives holds"""
+    kind = w[0]
+    if kind == "any":
+        rs = [eval_witness(facts, x, ss) for x in w[1:]]
+        return any(r[0] for r in rs), " or ".join(r[1] for r in rs)
+    if kind in ("dom_call", "dom_calls", "dom_call_same_loop"):
+        rx = re.compile(w[1])
+        need = w[2] if kind == "dom_calls" else 1
+        same_loop = kind == "dom_call_same_loop"
+        txt = (f"every site is dominated by {need} call(s) matching /{w[1]}/" +
+               (" made in the same loop iteration (inside every loop the site is in)" if same_loop else ""))
+        for s in ss:
+            b, sb = s["body"], s.get("bb")
+            if sb is None:
+                return False, txt + " (site has no block)"
+            loops = []
+            if same_loop:
+                from ..loops import natural_loops
+                loops = [body for _, _, body in natural_loops(b) if sb in body]
+            n = sum(1 for bb, t in b.calls() if rx.search(t.callee) and bb != sb and b.dominates(bb, sb)
+                    and all(bb in body for body in loops))
+            if n < need:
+                return False, txt + f" (line {s['line']}: {n})"
+        return True, txt
+    if kind == "dom_call_after":
+        rx, arx = re.compile(w[1]), re.compile(w[2])
+        txt = f"every site is dominated by a call matching /{w[1]}/ that is itself dominated by a call matching /{w[2]}/"
+        for s in ss:
+            b, sb = s["body"], s.get("bb")
+            if sb is None:
+                return False, txt + " (site has no block)"
+            afters = [bb for bb, t in b.calls() if arx.search(t.callee)]
+            ok = any(rx.search(t.callee) and bb != sb and b.dominates(bb, sb) and
+                     any(a != bb and b.dominates(a, bb) for a in afters) for bb, t in b.calls())
+            if not ok:
+                return False, txt + f" (line {s['line']}: none)"
+        return True, txt
+    if kind == "entry_range":
+        # the entry facts (argsum) of a closed function still bound a parameter: all its call sites establish the range
+        from .. import argsum
+        a = argsum.get(facts)
+        bodies = _fn_bodies(facts, w[1])
+        txt = f"every call site of /{w[1]}/ passes argument _{w[2]} within [{w[3]}, {w[4]}]"
+        if not bodies:
+            return False, txt + " (function not found)"
+        for b in bodies:
+            a.ensure(b)
+            r = (a.reg.get(b.path) or {}).get("ranges", {}).get(w[2])
+            if r is None or r[0] < w[3] or r[1] > w[4]:
+                return False, txt + f" (established today: {r})"
+        return True, txt
+    if kind == "operand_within":
+        which, lo, hi = w[1], w[2], w[3]
+        need = w[4] if len(w) > 4 else 1
+        txt = f"the analysis bounds operand {which} of at least {need} of the sites within [{lo}, {hi}]"
+        n = 0
+        for s in ss:
+            m = re.search(r"of \((-?\d+), (-?\d+)\) and \((-?\d+), (-?\d+)\)", s.get("why") or "")
+            if m:
+                r = (int(m.group(1)), int(m.group(2))) if which == 0 else (int(m.group(3)), int(m.group(4)))
+                if lo <= r[0] and r[1] <= hi:
+                    n += 1
+        return n >= need, txt + f" ({n} today)"
+    if kind == "fn_call":
+        rx = re.compile(w[2])
+        bodies = _fn_bodies(facts, w[1])
+        ok = any(rx.search(t.callee) for b in bodies for _, t in b.calls())
+        return ok, f"a function matching /{w[1]}/ ({len(bodies)} found) calls /{w[2]}/"
+    if kind == "fn_ret_const":
+        bodies = _fn_bodies(facts, w[1])
+        ok = False
+        for b in bodies:
+            for _, _, st in b.stmts():
+                if st[0] == "A" and st[1][0] == 0 and not st[1][1] and st[2][0] == "use" and st[2][1][0] == "k":
+                    kc = op_const(st[2][1])
+                    if kc is not None and kc[1] == w[2]:
+                        ok = True
+        return ok, f"a function matching /{w[1]}/ ({len(bodies)} found) returns the constant {w[2]} on some path"
+    return False, f"unknown witness form {w!r}"
+
+
 def load_baseline():
     if not os.path.exists(BASELINE):
         return {}
@@ -185,7 +292,8 @@ def run_sites(chk, facts, rid, cfg):
         if s["ok"] and shown < 12:
             shown += 1
             r["instances"].append(f"{s['body'].path} line {s['line']}: {s['kind']} -- {s['why']}")
-    n_conf = n_untri = n_moved = 0
+    n_conf = n_untri = n_moved = n_wit = 0
+    wits = load_witnesses().get(rid, {})
 
     def allowed_of(ent):
         if ent is None:
@@ -218,6 +326,14 @@ def run_sites(chk, facts, rid, cfg):
             ent = ent or {}
             if ent.get("status") == "confirmed":
                 n_conf += len(ss)
+                for w in wits.get(key, ()):
+                    n_wit += 1
+                    ok, txt = eval_witness(facts, w, ss)
+                    chk.ob(rid, f"confirmed reason of {key[:140]} keeps its witness: {txt}", ok,
+                           key=f"witness|{key}|{json.dumps(w)}", file=b.file, line=lines[-1], fn=b.path,
+                           detail=(f"the site is tolerated because it was read and confirmed safe for this reason: "
+                                   f"{ent.get('reason', '')[:300]} -- the structural fact that reason rests on ({txt}) no "
+                                   f"longer holds, so the confirmation is void: the guard was removed or rewritten"))
             else:
                 n_untri += len(ss)
             r["obligations"] += len(ss)
@@ -249,6 +365,7 @@ def run_sites(chk, facts, rid, cfg):
     chk.stats[f"{rid}:{cfg}:sites"] = len(sites)
     chk.stats[f"{rid}:{cfg}:discharged_by_analysis"] = n_ok
     chk.stats[f"{rid}:{cfg}:tolerated_confirmed"] = n_conf
+    chk.stats[f"{rid}:{cfg}:confirmed_reason_witnesses_checked"] = n_wit
     chk.stats[f"{rid}:{cfg}:tolerated_untriaged_not_claimed"] = n_untri
     chk.stats[f"{rid}:{cfg}:tolerated_as_moved_within_file"] = n_moved
     asum = getattr(facts, "_argsum", None)
